@@ -1844,6 +1844,14 @@ pub fn drive(tier_name: &str, seed: u64, workers: usize) -> i32 {
         exit = 2;
     }
 
+    // one number for the whole batch: FNV over the per-run fingerprints in run order
+    let mut fps = fingerprints.clone();
+    fps.sort();
+    let mut batch_fp = 0xcbf2_9ce4_8422_2325u64;
+    for (i, f) in &fps {
+        batch_fp = fnv_add(batch_fp, &i.to_le_bytes());
+        batch_fp = fnv_add(batch_fp, &f.to_le_bytes());
+    }
     let probe_state = std::env::var("VERIF_PROBE").unwrap_or_else(|_| "not run".into());
     if probe_state == "failed" {
         violations += 1;
@@ -1883,6 +1891,7 @@ pub fn drive(tier_name: &str, seed: u64, workers: usize) -> i32 {
         "miri_layer": miri_summary,
         "runs_that_hit_the_step_cap": cap_hits,
         "runs_that_stalled_and_were_re_run_with_atomic_operations": STALLED_RUNS.load(std::sync::atomic::Ordering::Relaxed),
+        "batch_fingerprint": format!("{:016x}", batch_fp),
         "determinism": {"runs_re_executed_in_a_second_process_at_7_workers": determinism_checked, "fingerprint_mismatches": determinism_mismatch.len()},
         "runs_per_hour": if wall_runs > 0.0 { (done as f64 / wall_runs * 3600.0) as u64 } else { 0 },
         "simulated_time": format!("{} scheduler steps (the system under test reads no clock)", agg_steps),
@@ -1904,8 +1913,8 @@ pub fn drive(tier_name: &str, seed: u64, workers: usize) -> i32 {
         ],
     });
     println!(
-        "C12 done: runs={} ops={} steps={} switches={} intra_op_switches={} nontrivial={} distinct_sigs={} cold_keys={} faults_fired={}/{} determinism={}/{} violations={} wall={:.1}s",
-        done, agg_ops, agg_steps, agg_switches, agg_intra, nontrivial_runs, sigs.len(), table.len(), faults_fired, faults_planned, determinism_checked - determinism_mismatch.len() as u64, determinism_checked, violations, wall
+        "C12 done: runs={} ops={} steps={} switches={} intra_op_switches={} nontrivial={} distinct_sigs={} cold_keys={} faults_fired={}/{} determinism={}/{} violations={} batch_fp={:016x} wall={:.1}s",
+        done, agg_ops, agg_steps, agg_switches, agg_intra, nontrivial_runs, sigs.len(), table.len(), faults_fired, faults_planned, determinism_checked - determinism_mismatch.len() as u64, determinism_checked, violations, batch_fp, wall
     );
     exit
 }
